@@ -141,6 +141,15 @@ func runC12(c *Ctx) {
 	if fn := c.Need("util/fixedtree.(*Tree).Set"); fn != nil {
 		c.MP(fn, "node stored only inside the slice", c.StoresD(fn, "&t.nodes[index]"), 1, GCmp("index", "<", "len(t.nodes)"))
 	}
+	if fn := c.Need("util/fixedtree.(*Writer).shrinkNodes"); fn != nil {
+		// dropping the last slot is only sound after the tail was shifted over the empty slot
+		trunc := c.StoresD(fn, "&g.nodes")
+		idx := "φ((↺ + 1)|0|↺)"
+		c.MP(fn, "last slot dropped only after the tail was shifted down (or the empty slot is the last one)", trunc, 1,
+			GCalled("copy(g.nodes["+idx+":], g.nodes[("+idx+" + 1):])"), GCmp(idx, ">=", "(len(g.nodes) - 1)"))
+		c.MP(fn, "a slot is dropped only if it is empty", trunc, 1, GNil("g.nodes["+idx+"]"))
+		c.Held(fn, nil, "shrinking under the writer lock", trunc, 1, "&g.l", LW)
+	}
 	if fn := c.Need("util/fixedtree.childrenNodes"); fn != nil {
 		var loads []ssa.Instruction
 		for _, in := range allInstrs(fn) {
